@@ -335,6 +335,7 @@ def unit_main(sess, ctx):
             gh = eng.st.ghost
             eng.prove("C15:main:workers-started-before-waiting", gh["log"][-1:] == [("start_all",)], props=P15)
             eng.havoc_loop_locals(s, fr)
+            eng.loop_guard_holds(s, fr, props=P15)
             gh["in_loop"] = True
             eng.exec_block(s.body, fr)       # leaves only through an exception
             raise PathEnd()
